@@ -476,12 +476,16 @@ func witnesses() []spec {
 	}
 	exp4 := []ent{{"a", true}, {"b", false}, {"c", false}, {"d", false}}
 	for _, k := range []int{kLevelDB, kLevelDB2, kLevelDB3, kGeneric} {
-		// callback answers false on its first call: both refill loops call it again
-		ws = append(ws, spec{kind: k, dir: exp4, label: "witness-1-stop-expired-refill", stops: []stopReq{{"", false, 3, []bool{false}}}})
-		ws = append(ws, spec{kind: k, dir: live("a", "b", "c", "d"), excl: "a", label: "witness-1-stop-missed-refill", stops: []stopReq{{"", false, 2, []bool{false}}}})
+		// callback answers false on its first call: both refill loops used to call it again
+		// (former finding 1, repaired: must be verdict 0 now)
+		ws = append(ws, spec{kind: k, dir: exp4, label: "repaired-stop-expired-refill", stops: []stopReq{{"", false, 3, []bool{false}}}})
+		ws = append(ws, spec{kind: k, dir: live("a", "b", "c", "d"), excl: "a", label: "repaired-stop-missed-refill", stops: []stopReq{{"", false, 2, []bool{false}}}})
 	}
-	// gRPC loop: limit 3, page size 2, an expired entry on the last page: 4 entries are sent
-	ws = append(ws, spec{kind: kLevelDB, dir: []ent{{"a", false}, {"b", false}, {"c", true}, {"d", false}, {"e", false}, {"f", false}}, label: "witness-1-grpc-over-limit", grpcs: [][2]int64{{3, 2}}})
+	// gRPC loop: limit 3, page size 2, an expired entry on the last page: 4 entries used to be sent
+	// (former finding 1, repaired: a,b,d)
+	for _, k := range []int{kLevelDB, kGeneric} {
+		ws = append(ws, spec{kind: k, dir: []ent{{"a", false}, {"b", false}, {"c", true}, {"d", false}, {"e", false}, {"f", false}}, label: "repaired-grpc-over-limit", grpcs: [][2]int64{{3, 2}}})
+	}
 	g := spec{kind: kLevelDB, dir: []ent{{"a", false}, {"b", true}}, starts: []string{""}, limits: []int64{3}, pageLimits: []int64{3}, label: "repaired-stream-lastname"}
 	ws = append(ws, g)
 	return ws
@@ -506,7 +510,7 @@ func allTriples() (all, clean []triple) {
 
 func main() {
 	out := hx.Flags("C19", 120)
-	out.Rule = "case = store (leveldb/leveldb2/leveldb3/generic in turn) x directory (random subset of {a,'a b',ab,abc,b,b0,ba,c}, each child expired with prob 0, 1/4 or 1/2; neighbours /c /d-x /d2 /d/sub always present) x (prefix,pattern,exclude): odd cases walk ALL 70 triples of {'',a,ab,b,x}x{'',*,a*,*b,a?,ab,?b*}x{'',a*} (stride 17 from a seed-chosen offset, continued across the shards of one run), even cases draw a triple outside the static trigger sets; inside a case EVERY start in names+{'',aa,zz} x inclusive x limit in {0..4,1000} goes through ListDirectoryEntries and StreamListDirectoryEntries (directory restored before each call), plus pagination with page sizes 1..3 in both client styles; first cases of shard 0 = the witness of the known finding (prefix and pattern together) and the witnesses of the repaired defects; non-trivial = some call returned entries without error; distinct = store+directory+triple"
+	out.Rule = "case = store (leveldb/leveldb2/leveldb3/generic in turn) x directory (random subset of {a,'a b',ab,abc,b,b0,ba,c}, each child expired with prob 0, 1/4 or 1/2; neighbours /c /d-x /d2 /d/sub always present) x (prefix,pattern,exclude): odd cases walk ALL 70 triples of {'',a,ab,b,x}x{'',*,a*,*b,a?,ab,?b*}x{'',a*} (stride 17 from a seed-chosen offset, continued across the shards of one run), even cases draw a triple outside the static trigger sets; inside a case EVERY start in names+{'',aa,zz} x inclusive x limit in {0..4,1000} goes through ListDirectoryEntries and StreamListDirectoryEntries (directory restored before each call), plus pagination with page sizes 1..3 in both client styles, StreamListDirectoryEntries with callbacks that answer false (3 answer lists x limits 2,4) and the gRPC ListEntries loop (limit,page) in {(3,2),(5,2),(4,3)}; first cases of shard 0 = the witness of the known finding (prefix and pattern together) and the witnesses of the repaired defects (incl. the stopped-callback / gRPC-over-limit ones); non-trivial = some call returned entries without error; distinct = store+directory+triple"
 	sort.Strings(universe)
 	worlds := make([]*world, nKinds)
 	for k := range worlds {
